@@ -29,6 +29,11 @@ noncomputable instance instArithReal : Arith ℝ where
   abs := fun x => |x|
   sign := Real.sign
   ofFrac := fun n d => (n : ℝ) / (d : ℝ)
+  isZero := fun x => @decide (x = 0) (Classical.propDecidable _)
+
+theorem isZero_iff (x : ℝ) : Arith.isZero x = true ↔ x = 0 := by
+  show @decide (x = 0) (Classical.propDecidable _) = true ↔ x = 0
+  simp
 
 /-- the Pauli matrices named by the generated tables -/
 noncomputable def pauliMat : Pauli → Matrix (Fin 2) (Fin 2) ℂ
